@@ -339,6 +339,16 @@ def progress_rule(model: Model, run: Run) -> None:
         fi = model.functions.get(q)
         if fi is None:
             raise AnalysisError(f"anchor {q} not found")
+        if any(isinstance(x, (ast.Yield, ast.YieldFrom)) for x in walk_no_nested(fi.node)):
+            # a generator that drives a loop for its callers: progress is the consumer's business, and it is judged where the
+            # generator's code has been expanded into the consuming `for` loop.  A reference that could not be expanded leaves
+            # the loop undecidable here.
+            used = [g.qualname for g in model.functions.values() if g is not fi and not isinstance(g.node, ast.Lambda)
+                    and any(isinstance(x, ast.Name) and x.id == fi.name and model.resolve_name(g.module, x.id) == fi.qualname for x in ast.walk(g.node))]
+            if used:
+                raise AnalysisError(f"{q}: a generator with a scanning loop is used in {used[0]} in a way that is not expanded")
+            run.note(f"{q}: generator, judged at its expansions")
+            continue
         for w in [x for x in walk_no_nested(fi.node) if isinstance(x, ast.While)]:
             n += 1
             t = w.test
